@@ -90,8 +90,12 @@ Section Machine.
   (* true: the code as it is now (fix 8a2210d: a fresh scan discards what an abandoned one left behind, and
      yr_scanner_destroy frees a leftover notebook); false: the pinned code, which did neither *)
   Variable discard : bool.
-  Variable M : Type.                               (* context->matches (+ required_eval, which matches set) *)
-  Variable m_empty : M.                            (* after _yr_scanner_clean_matches *)
+  (* everything block scanning accumulates in the scanner and a not-ready return must keep: context->matches
+     (+ required_eval, which matches set) and scanner->entry_point (computed from the first block that looks like
+     an executable, only while it is still undefined: scanner.c "if (scanner->entry_point == YR_UNDEFINED)");
+     the concrete instance below ([rc_acc]) has both *)
+  Variable M : Type.
+  Variable m_empty : M.                            (* after _yr_scanner_clean_matches, entry_point = YR_UNDEFINED *)
   Variable m_scan : M -> rs_block -> list N -> M.  (* _yr_scanner_scan_mem_block on fetched data *)
   Variable R : Type.
   Variable reads : list N.                         (* offsets the conditions read, in evaluation order *)
@@ -222,7 +226,9 @@ Inductive rc_atom :=
 | RcStr (s : nat)                 (* $s *)
 | RcCount (s : nat) (n : N)       (* #s == n *)
 | RcFsz (n : N)                   (* filesize == n *)
-| RcU8 (off v : N).               (* uint8(off) == v *)
+| RcU8 (off v : N)                (* uint8(off) == v *)
+| RcEpEq (n : N)                  (* entrypoint == n *)
+| RcAtEp (s : nat).               (* $s at entrypoint *)
 
 Record rc_rule := mk_rc_rule { rc_ns : nat; rc_global : bool; rc_private : bool; rc_atom_of : rc_atom }.
 
@@ -251,40 +257,74 @@ Definition rc_scan (pats : list (list N)) (m : list (list N)) (b : rs_block) (d 
   map (fun pm => fold_left (fun acc x => rc_insert x acc) (rc_occ (fst pm) d (rb_base b)) (snd pm))
       (combine pats m).
 
+(* the accumulator of the concrete instance: matches per string, and scanner->entry_point *)
+Record rc_acc := mk_rc_acc { ra_matches : list (list N); ra_entry : option N }.
+Definition rc_empty (pats : list (list N)) : rc_acc := mk_rc_acc (map (fun _ => []) pats) None.
+
+(* yr_get_entry_point_offset(data, block->size) is an oracle: [eps] maps the base of a block to the offset the
+   function returns for that block's data (checks/c13.py builds the ELF/PE headers and knows it); no entry =
+   YR_UNDEFINED.  An empty buffer is never an executable. *)
+Fixpoint rc_ep (eps : list (N * N)) (base : N) : option N :=
+  match eps with
+  | [] => None
+  | (b, e) :: r => if N.eqb b base then Some e else rc_ep r base
+  end.
+
+(* one block: "if (scanner->entry_point == YR_UNDEFINED) scanner->entry_point = ...;" then the block is scanned *)
+Definition rc_scan_acc (pats : list (list N)) (eps : list (N * N)) (a : rc_acc) (b : rs_block) (d : list N) : rc_acc :=
+  mk_rc_acc (rc_scan pats (ra_matches a) b d)
+            (match ra_entry a with
+             | Some e => Some e
+             | None => match d with [] => None | _ => rc_ep eps (rb_base b) end
+             end).
+
 Definition rc_reads (rules : list rc_rule) : list N :=
   flat_map (fun r => match rc_atom_of r with RcU8 off _ => [off] | _ => [] end) rules.
 
-(* evaluate the atoms in rule order; each RcU8 consumes the next read value *)
-Fixpoint rc_conds (rules : list rc_rule) (m : list (list N)) (fsz : option N) (vals : list (option N)) : list bool :=
+(* evaluate the atoms in rule order; each RcU8 consumes the next read value; an undefined entry point makes
+   both entrypoint atoms false *)
+Fixpoint rc_conds (rules : list rc_rule) (m : list (list N)) (ep : option N) (fsz : option N) (vals : list (option N)) : list bool :=
   match rules with
   | [] => []
   | r :: rs =>
       match rc_atom_of r with
-      | RcTrue => true :: rc_conds rs m fsz vals
-      | RcFalse => false :: rc_conds rs m fsz vals
-      | RcStr s => negb (Nat.eqb (length (nth s m [])) 0) :: rc_conds rs m fsz vals
-      | RcCount s n => N.eqb (N.of_nat (length (nth s m []))) n :: rc_conds rs m fsz vals
-      | RcFsz n => (match fsz with Some z => N.eqb z n | None => false end) :: rc_conds rs m fsz vals
-      | RcU8 _ v => (match vals with Some x :: _ => N.eqb x v | _ => false end) :: rc_conds rs m fsz (tl vals)
+      | RcTrue => true :: rc_conds rs m ep fsz vals
+      | RcFalse => false :: rc_conds rs m ep fsz vals
+      | RcStr s => negb (Nat.eqb (length (nth s m [])) 0) :: rc_conds rs m ep fsz vals
+      | RcCount s n => N.eqb (N.of_nat (length (nth s m []))) n :: rc_conds rs m ep fsz vals
+      | RcFsz n => (match fsz with Some z => N.eqb z n | None => false end) :: rc_conds rs m ep fsz vals
+      | RcU8 _ v => (match vals with Some x :: _ => N.eqb x v | _ => false end) :: rc_conds rs m ep fsz (tl vals)
+      | RcEpEq n => (match ep with Some e => N.eqb e n | None => false end) :: rc_conds rs m ep fsz vals
+      | RcAtEp s => (match ep with Some e => existsb (N.eqb e) (nth s m []) | None => false end) :: rc_conds rs m ep fsz vals
       end
   end.
 
 Definition rc_finish (rules : list rc_rule) (imports : list nat) (f : Z) (sc : rp_script)
-                     (m : list (list N)) (fsz : option N) (vals : list (option N))
-  : list rp_msg * Z * list (list N) :=
-  let conds := rc_conds rules m fsz vals in
+                     (a : rc_acc) (fsz : option N) (vals : list (option N))
+  : list rp_msg * Z * list (list N) * option N :=
+  let conds := rc_conds rules (ra_matches a) (ra_entry a) fsz vals in
   let rr := map (fun rc => mk_rp_rule (rc_ns (fst rc)) (rc_global (fst rc)) (rc_private (fst rc)) false (snd rc))
                 (combine rules conds) in
-  (rp_scan imports rr f sc, m).
+  (rp_scan imports rr f sc, ra_matches a, ra_entry a).
 
 (* the interrupted run, every call listed: (rc-or-result, calls made in that call) *)
-Definition rc_run (discard : bool) (pats : list (list N)) (rules : list rc_rule) (imports : list nat) (f : Z) (sc : rp_script)
-                  (blocks : list rs_block) (fsz : option N) (pat : list bool) :=
-  rs_run discard (list (list N)) (map (fun _ => []) pats) (rc_scan pats) _ (rc_reads rules)
+Definition rc_run (discard : bool) (pats : list (list N)) (eps : list (N * N)) (rules : list rc_rule) (imports : list nat)
+                  (f : Z) (sc : rp_script) (blocks : list rs_block) (fsz : option N) (pat : list bool) :=
+  rs_run discard rc_acc (rc_empty pats) (rc_scan_acc pats eps) _ (rc_reads rules)
          (rc_finish rules imports f sc) blocks fsz pat.
 
 (* one call, from a given state and iterator (the check drives the calls itself to compare call by call) *)
-Definition rc_call (discard : bool) (pats : list (list N)) (rules : list rc_rule) (imports : list nat) (f : Z) (sc : rp_script)
-                   (blocks : list rs_block) (fsz : option N) st it :=
-  rs_scan_call discard (list (list N)) (map (fun _ => []) pats) (rc_scan pats) _ (rc_reads rules)
+Definition rc_call (discard : bool) (pats : list (list N)) (eps : list (N * N)) (rules : list rc_rule) (imports : list nat)
+                   (f : Z) (sc : rp_script) (blocks : list rs_block) (fsz : option N) st it :=
+  rs_scan_call discard rc_acc (rc_empty pats) (rc_scan_acc pats eps) _ (rc_reads rules)
                (rc_finish rules imports f sc) blocks fsz st it.
+
+(* the entry point a scan ends with: that of the first block (with data) that has one *)
+Fixpoint rc_first_ep (eps : list (N * N)) (blocks : list rs_block) : option N :=
+  match blocks with
+  | [] => None
+  | b :: r => match (match rb_data b with Some (_ :: _) => rc_ep eps (rb_base b) | _ => None end) with
+              | Some e => Some e
+              | None => rc_first_ep eps r
+              end
+  end.
